@@ -9,6 +9,7 @@ package eio
 // C13: the long-polling batcher. Every hand-off to the transport is the next consecutive segment of the
 // argument (nothing dropped, duplicated or reordered); a polling batch of several packets stays within maxPayload.
 //@ func (*clientSocket).writeWritablePackets
+//@   holds s.transportMu
 //@   requires s.transport != nil && s.debug != nil
 //@   requires forall k int :: 0 <= k && k < len(packets) ==> packets[k] != nil
 //@   ghost flushed int = 0
@@ -515,3 +516,13 @@ package eio
 //@     update wd = wd + 1
 //@   ensures err == nil ==> wd == 1 [C14.cli.watchdog.started]
 //@   ensures err != nil ==> wd == 0 [C14.cli.watchdog.only.connected]
+
+// ---------------------------------------------------------------------------------------------
+// C16. Lock discipline: which mutex guards which fields (every read/write of a guarded field outside the constructor
+// needs that mutex of the same object; checked in lock mode over every function of the package).
+//@ type clientSocket
+//@   guarded_by (transportMu) transport
+//@ type serverSocket
+//@   guarded_by (transportMu) transport
+//@ type socketStore
+//@   guarded_by (mu) sockets
